@@ -22,7 +22,7 @@ func init() {
 	register(&mc.Check{
 		ID:    "C05",
 		Level: "model_checking",
-		Rule: "a generated family of applications of depth <=3 (LOAD/RELOAD/MAP of symbols s,t at every level, declared sizes {0,1,4,65535}, the same symbol loaded on different branches and depths) x all input histories up to depth d over descend/ascend/re-enter/rewind/repeat selectors x, at every external call, a choice among answers {v<k>, '', 'a\\nb', 5 bytes, 65536 bytes} with a deviation bound on non-default answers (stateless DFS with replay); " +
+		Rule: "a generated family of applications of depth <=3 (LOAD/RELOAD/MAP of symbols s,t at every level, declared sizes {0,1,4,65535}, the same symbol loaded on different branches and depths) x all input histories up to depth d over descend/ascend/re-enter/rewind/repeat selectors x, at every external call, a choice among answers {v<k>, '', 'a\\nb', 5 bytes, 65536 bytes, 3 two-byte characters} with a deviation bound on non-default answers (stateless DFS with replay); " +
 			"reference = documented LOAD/RELOAD/MAP/scope semantics (ref.VM) stepped in lockstep, compared after every request on the external-call log, the cache contents per level with limits, and the rendered text; states = distinct (app, position, cache contents) triples; non-trivial = histories that re-enter a level after leaving it",
 		Assumptions: []string{"how a failing instruction is reported (plain error or catch node) is not constrained; the history ends there after checking that the value was neither stored nor shown", "RELOAD/MAP of a symbol that is not visible is outside the corpus", "declared sizes above 65535 are outside the quantifier"},
 		Run:         c05Run,
@@ -83,6 +83,14 @@ func c05Directed(name string) *app.App {
 			return resource.Result{FlagSet: []uint32{8}}, nil
 		})
 		a.WithInputs("1", "0")
+	case "catchskip":
+		// menu entries and a mapping before a CATCH that is NOT taken: it "otherwise does nothing"
+		a.FlagCount = 2
+		a.Node("root", "root {{.xx}}", codec.Ins{Op: codec.LOAD, Sym: "xx", N: 8}, codec.Ins{Op: codec.MAP, Sym: "xx"}, codec.Ins{Op: codec.MOUT, Sym: "one", Sel: "1"},
+			codec.Ins{Op: codec.CATCH, Sym: "other", N: 8, Mode: true}, codec.Ins{Op: codec.MOUT, Sym: "two", Sel: "2"}, codec.Ins{Op: codec.HALT}, codec.Ins{Op: codec.INCMP, Sym: "other", Sel: "1"}, codec.Ins{Op: codec.INCMP, Sym: ".", Sel: "2"})
+		a.Node("other", "other", codec.Ins{Op: codec.HALT}, codec.Ins{Op: codec.INCMP, Sym: "_", Sel: "0"})
+		a.Func("xx", constFunc("xval"))
+		a.WithInputs("1", "2", "0")
 	case "sinkreuse":
 		// the same symbol is a sink (size 0) in one node and an ordinary sized value in another
 		a.Node("root", "root", codec.Ins{Op: codec.MOUT, Sym: "a", Sel: "1"}, codec.Ins{Op: codec.MOUT, Sym: "b", Sel: "2"}, codec.Ins{Op: codec.HALT},
@@ -107,9 +115,9 @@ func c05Directed(name string) *app.App {
 	return a
 }
 
-var c05DirectedNames = []string{"catchmap", "sinkreuse", "lastleft"}
+var c05DirectedNames = []string{"catchmap", "catchskip", "sinkreuse", "lastleft"}
 
-var c05Answers = []string{"", "", "a\nb", "12345", strings.Repeat("x", 65536)} // index 0 replaced by "v<k>"
+var c05Answers = []string{"", "", "a\nb", "12345", strings.Repeat("x", 65536), "\u00e9\u00e9\u00e9"} // index 0 replaced by "v<k>"; the last one: 3 characters, 6 bytes - a limit counts bytes
 
 func c05Func(x *mc.Chooser) app.Func {
 	return func(e *app.Env, sym string, in []byte, l string) (resource.Result, error) {
